@@ -114,7 +114,9 @@ pub enum Case {
 }
 
 fn strings(rng: &mut Rng) -> String {
-    match rng.below(12) {
+    match rng.below(13) {
+        // separators an argument parser may treat as list / key-value delimiters
+        12 => (*rng.pick(&["a,b", "ou=backup,dc=example,dc=org", ",", "a,", ",b", "x;y", "k:v", "a b,c d", "p1|p2", "1,2,3", "a,,b", "path/with,comma"])).to_string(),
         8 => (*rng.pick(&["1234", "00", "cafe", "DEADBEEF", "20240131", "0", "0x1234", "ff", "AbCd", "1e10", "true", "null"])).to_string(),
         9 => format!("{:016x}{:016x}{:016x}{:016x}", rng.next(), rng.next(), rng.next(), rng.next()),
         10 => (*rng.pick(&[" ", "  leading and trailing  ", "\t", "a\nb", "%s%n", "$HOME", "~", ".", "..", "/", "aGVsbG8=", "a=b", "--", "-"])).to_string(),
